@@ -211,7 +211,8 @@ structure DState where
   cache     : Option Balance            -- `_balance_cache`
   flagOpen  : Bool                      -- `Market.is_open` (timestamp has data)
   now       : Int                       -- `market_status.timestamp`, minutes
-  price     : Rat                       -- `_price_status[token]` (float)
+  price     : Rat                       -- `_price_status[token]`
+  priceDec  : Bool                      -- is that price a Decimal (Actuator.set_price converts) or a float
 deriving DecidableEq, Repr
 
 inductive Err
@@ -506,18 +507,34 @@ def getMarketBalance (cx : DCtx) (c : TokenCfg) (s : DState) : Outcome × DState
 
 /-! ### expiry -/
 
-/-- the row used for a position at expiry: its book row, or `InstrumentStatus(mark_price=0,
-    underlying_price=price[token])` -/
-def settleQuote (s : DState) (name : String) : Rat × Rat :=
+/-- what a position is settled against: mark and underlying of its book row (floats), or — when the
+    instrument has left the book — `InstrumentStatus(mark_price=0, underlying_price=price[token])`, whose
+    underlying is a Decimal when the prices came through `Actuator.set_price` -/
+structure Quote where
+  mark  : Rat
+  under : Rat
+  dec   : Bool        -- underlying is a Decimal: the payoff ratio is computed in Decimal arithmetic
+deriving DecidableEq, Repr
+
+def settleQuote (s : DState) (name : String) : Quote :=
   match findInstr s.book name with
-  | some ins => (ins.mark, ins.underlying)
-  | none => (0, s.price)
+  | some ins => { mark := ins.mark, under := ins.underlying, dec := false }
+  | none => { mark := 0, under := s.price, dec := s.priceDec }
+
+/-- `(underlying - strike) / underlying` (call) or `(strike - underlying) / underlying` (put) as the code
+    computes it: numpy float arithmetic on a book row, Decimal arithmetic on a Decimal price -/
+def payoffRatio (cx : DCtx) (q : Quote) (strike : Rat) (isCall : Bool) : Rat :=
+  if q.dec then
+    let diff := if isCall then cx.num.sub q.under strike else cx.num.sub strike q.under
+    cx.num.div diff q.under
+  else
+    let diff := if isCall then cx.fsub q.under (cx.toF strike) else cx.fsub (cx.toF strike) q.under
+    cx.fdiv diff q.under
 
 /-- `_deliver_option`: `some (gross, fee)` when something is paid -/
-def deliverOption (cx : DCtx) (c : TokenCfg) (p : Position) (mark under : Rat) (isCall : Bool) : Option (Rat × Rat) :=
-  let fee := deliverFee cx c p.amount (cx.num.mul p.amount (roundDec c.feeExp mark))
-  let diff := if isCall then cx.fsub under (cx.toF p.strike) else cx.fsub (cx.toF p.strike) under
-  let gross := roundDec c.feeExp (cx.num.mul p.amount (cx.fdiv diff under))
+def deliverOption (cx : DCtx) (c : TokenCfg) (p : Position) (q : Quote) (isCall : Bool) : Option (Rat × Rat) :=
+  let fee := deliverFee cx c p.amount (cx.num.mul p.amount (roundDec c.feeExp q.mark))
+  let gross := roundDec c.feeExp (cx.num.mul p.amount (payoffRatio cx q p.strike isCall))
   if gross ≤ fee then none else some (gross, fee)
 
 /-- in the money? `put ∧ strike > underlying` or `call ∧ strike < underlying` -/
@@ -530,23 +547,37 @@ def settleRec (cx : DCtx) (c : TokenCfg) (key : String) (p : Position) (mark und
   { name := key, kind := p.kind, markR := roundDec c.feeExp mark, amount := p.amount,
     premium := cx.num.mul p.amount (roundDec c.feeExp mark), strike := p.strike, underR := roundDec c.feeExp under }
 
+/-- what a due position is paid: `some (gross, fee)` when it is in the money and the payoff exceeds the
+    delivery fee, `none` otherwise -/
+def paidOf (cx : DCtx) (c : TokenCfg) (s : DState) (p : Position) : Option (Rat × Rat) :=
+  let q := settleQuote s p.name
+  match itm p q.under with
+  | none => none
+  | some isCall => deliverOption cx c p q isCall
+
+/-- the `DeliverAction` of a paid position -/
+def deliverRec (cx : DCtx) (c : TokenCfg) (s : DState) (k : String) (p : Position) (gf : Rat × Rat) : Action :=
+  let q := settleQuote s p.name
+  .deliver (settleRec cx c k p q.mark q.under) gf.1 gf.2 (cx.num.sub gf.1 gf.2)
+
+/-- the `ExpiredAction` of a removed position -/
+def expiredRec (cx : DCtx) (c : TokenCfg) (s : DState) (k : String) (p : Position) : Action :=
+  let q : Quote :=
+    match findInstr s.book k with
+    | some _ => settleQuote s p.name
+    | none => { mark := 0, under := s.price, dec := s.priceDec }
+  .expired (settleRec cx c k p q.mark q.under)
+
 /-- first loop of `check_option_exercise`: cash and Deliver records for the due positions -/
 def exerciseLoop (cx : DCtx) (c : TokenCfg) (s : DState) :
     List (String × Position) → Rat × List Action × List String → Rat × List Action × List String
   | [], acc => acc
   | (k, p) :: ps, (cash, acts, keys) =>
     if s.now ≥ p.expiry then
-      let (mark, under) := settleQuote s p.name
-      let paid : Option (Rat × Rat) :=
-        match itm p under with
-        | none => none
-        | some isCall => deliverOption cx c p mark under isCall
-      match paid with
-      | some (gross, fee) =>
-        let sr := settleRec cx c k p mark under
+      match paidOf cx c s p with
+      | some gf =>
         exerciseLoop cx c s ps
-          (cx.num.add cash (cx.num.sub gross fee),
-           acts ++ [.deliver sr gross fee (cx.num.sub gross fee)], keys ++ [k])
+          (cx.num.add cash (cx.num.sub gf.1 gf.2), acts ++ [deliverRec cx c s k p gf], keys ++ [k])
       | none => exerciseLoop cx c s ps (cash, acts, keys ++ [k])
     else exerciseLoop cx c s ps (cash, acts, keys)
 
@@ -557,19 +588,13 @@ def expireLoop (cx : DCtx) (c : TokenCfg) (s : DState) :
   | k :: ks, (pos, acts) =>
     match AList.get? pos k with
     | none => expireLoop cx c s ks (pos, acts)      -- unreachable: keys come from the dict
-    | some p =>
-      let (mark, under) :=
-        match findInstr s.book k with
-        | some _ => settleQuote s p.name
-        | none => (0, s.price)
-      let sr := settleRec cx c k p mark under
-      expireLoop cx c s ks (AList.erase pos k, acts ++ [.expired sr])
+    | some p => expireLoop cx c s ks (AList.erase pos k, acts ++ [expiredRec cx c s k p])
 
 /-- `check_option_exercise` -/
 def exercise (cx : DCtx) (c : TokenCfg) (s : DState) : DState :=
-  let (cash, acts, keys) := exerciseLoop cx c s s.positions (s.cash, s.actions, [])
-  let (pos, acts) := expireLoop cx c s keys (s.positions, acts)
-  { s with cash := cash, positions := pos, actions := acts }
+  let r := exerciseLoop cx c s s.positions (s.cash, s.actions, [])     -- (cash, actions, key_to_remove)
+  let e := expireLoop cx c s r.2.2 (s.positions, r.2.1)
+  { s with cash := r.1, positions := e.1, actions := e.2 }
 
 /-- `update()` -/
 def update (cx : DCtx) (c : TokenCfg) (s : DState) : DState :=
